@@ -42,6 +42,9 @@ def histories(draw, tier):
         # keys whose equality is reflexive and symmetric but NOT transitive (tolerance keys)
         key = [["T", k[1]] for k in draw(st.lists(st.integers(0, 4).map(lambda n: ["i", n]), min_size=2, max_size=5))]
     if key is not None and key[0][0] != "T" and draw(st.integers(0, 5)) == 0:
+        # keys whose "!=" is not the negation of their "==" (a subclass widened "==" only): runs are decided by "=="
+        key = [["NE", k[1]] for k in draw(st.lists(st.integers(0, 5).map(lambda n: ["i", n]), min_size=2, max_size=5))]
+    elif key is not None and key[0][0] != "T" and draw(st.integers(0, 5)) == 0:
         # keys that refuse to be compared with anything but their own kind; or a FIRST key equal to everything
         key = [["SK", k[1]] for k in draw(st.lists(st.integers(0, 2).map(lambda n: ["i", n]), min_size=1, max_size=4))]
         if draw(st.integers(0, 1)) == 0 and len(key) >= 2:
@@ -49,11 +52,11 @@ def histories(draw, tier):
             # an advance of the groupby (whoever asks again gets the same answer from both implementations)
             key = [k if draw(st.integers(0, 1)) == 0 else ["i", k[1]] for k in key]
             strict_mixed = True
-    elif key is not None and key[0][0] not in ("T", "SK") and draw(st.integers(0, 7)) == 0:
+    elif key is not None and key[0][0] not in ("T", "SK", "NE") and draw(st.integers(0, 7)) == 0:
         key = [["E", 990 + i] if draw(st.integers(0, 2)) == 0 else k for i, k in enumerate(key)]
     mixed = [["i", 1], ["f", 1.0], ["b", True], ["i", 0], ["f", 0.0], ["b", False], ["i", 2], ["f", 2.0], ["F", 2, 1],
              ["n"], ["n"], ["s", ""], ["t", []]]  # None and other falsy values are keys like any other
-    if key is not None and key[0][0] not in ("T", "SK", "E") and all(k[0] != "E" for k in key) and draw(st.integers(0, 3)) == 0:
+    if key is not None and key[0][0] not in ("T", "SK", "E", "NE") and all(k[0] != "E" for k in key) and draw(st.integers(0, 3)) == 0:
         # keys that are EQUAL although their types differ (1 == 1.0 == True): one run, keyed by its first key
         key = draw(st.lists(st.sampled_from(mixed), min_size=2, max_size=5))
     elif key is None and items and draw(st.integers(0, 4)) == 0:
